@@ -263,42 +263,39 @@ def run(R, env):
         R.ob("C07.R5", "recover:uses-filtered-pagination", len(pcalls) == 1, "found %d paginated scans of INFLIGHT_PACKETS with a filter in the permissionless path" % len(pcalls), fn=hk)
         for bi, t, args in pcalls:
             clo = [s_ for a in args for s_ in subterms(a) if s_[0] == "closure"][0]
-            caps = {n_: v for _, n_, v in clo[2]}
-            rcv = caps.get("receiver")
-            rgood = rcv is not None and rcv[0] == "call" and rcv[1] == "std::option::Option::unwrap_or" and loaded_field(prog, rcv[2][1], "config", ["native_chain_config", "staker_address"], CRATE)
-            R.ob("C07.R5", "recover:filter-receiver-is-validated-receiver", rgood, "the filter compares with %s" % fmt(rcv or ("none",))[:120], loc=h.body.loc(bi), fn=hk)
             cc = closure_ctx(prog, clo, params={2: ("pkt",)})
+            # the value the filter compares the packet's receiver with (whatever the capture is called)
+            rcv = None
+            if cc is not None:
+                pool = [x for _, atom in cc.atoms() for x in subterms(atom[1])] + list(subterms(cc.T.return_term()))
+                for x in pool:
+                    if x[0] == "call" and x[1] in EQ and len(x[2]) == 2:
+                        for u, v in ((x[2][0], x[2][1]), (x[2][1], x[2][0])):
+                            if norm(u) == norm(("field", ("pkt",), "receiver")):
+                                rcv = v
+            rgood = rcv is not None and C02.recover_receiver_ok(prog, rcv)
+            R.ob("C07.R5", "recover:filter-receiver-is-validated-receiver", rgood, "the filter compares with %s" % fmt(rcv or ("none",))[:120], loc=h.body.loc(bi), fn=hk)
             table = {}
-            okt = cc is not None
+            okt = cc is not None and rcv is not None
             if okt:
                 for match in (True, False):
                     for st in STATUSES:
-                        rem2 = set()
-                        for abi, atom in cc.atoms():
-                            if atom[0] != "bool":
-                                continue
-                            x = atom[1]
-                            if x[0] == "call" and x[1] in EQ:
-                                a, b = x[2]
-                                val = None
-                                if {norm(a), norm(b)} == {norm(("field", ("pkt",), "receiver")), norm(rcv)} if rcv is not None else False:
-                                    val = match if EQ[x[1]] else not match
-                                else:
-                                    for u, v in ((a, b), (b, a)):
-                                        if norm(u) == norm(("field", ("pkt",), "status")) and v[0] == "agg" and v[1].endswith("PacketLifecycleStatus"):
-                                            val = (v[2] == st) if EQ[x[1]] else (v[2] != st)
-                                if val is not None:
-                                    for tg in atom[2][not val]:
-                                        if tg not in atom[2][val]:
-                                            rem2.add((abi, tg))
-                        ww = cc.with_removed(rem2).settle()
+                        def eqv(x, match=match, st=st):
+                            if x[0] == "call" and x[1] in EQ and len(x[2]) == 2:
+                                a_, b_ = x[2]
+                                if {norm(a_), norm(b_)} == {norm(("field", ("pkt",), "receiver")), norm(rcv)}:
+                                    return match if EQ[x[1]] else not match
+                                for u, v in ((a_, b_), (b_, a_)):
+                                    if norm(u) == norm(("field", ("pkt",), "status")) and v[0] == "agg" and v[1].endswith("PacketLifecycleStatus"):
+                                        return (v[2] == st) if EQ[x[1]] else (v[2] != st)
+                            return None
+                        stv = lambda s_, st=st: (st if norm(s_) == norm(("field", ("pkt",), "status")) else None)
+                        ww = cc.assume((None, eqv), (None, ("variantfn", stv))).settle()
+                        from engine.analysis import resolve_terms as _rt5
                         rt = ww.T.return_term()
-                        # a comparison result returned directly (`a && b` tail): evaluate it too
-                        if rt[0] == "call" and rt[1] in EQ:
-                            a, b = rt[2]
-                            for u, v in ((a, b), (b, a)):
-                                if norm(u) == norm(("field", ("pkt",), "status")) and v[0] == "agg":
-                                    rt = ("const", "bool", (v[2] == st) if EQ[rt[1]] else (v[2] != st))
+                        if not (rt[0] == "const" and rt[1] == "bool"):
+                            v2 = ww._assumed(rt)
+                            rt = v2 if v2[0] == "const" else rt
                         table[(match, st)] = rt[2] if rt[0] == "const" and rt[1] == "bool" else fmt(rt)[:60]
                 want = {(m_, s_): (m_ and s_ in ("AckFailure", "TimedOut")) for m_ in (True, False) for s_ in STATUSES}
                 okt = table == want
@@ -312,11 +309,25 @@ def run(R, env):
                 a, b = t[2]
                 for x, y in ((a, b), (b, a)):
                     if x[0] == "field" and x[2] == "receiver" and x[1][0] == "payload" and shared.unwrap_payload(x[1])[0] == "call" and shared.unwrap_payload(x[1])[1].endswith("Map::load") and ns_of(prog, shared.unwrap_payload(x[1])[2][0]) == "inflight":
-                        if y[0] == "call" and y[1] == "std::option::Option::unwrap_or":
+                        if (y[0] == "call" and y[1] == "std::option::Option::unwrap_or") or C02.recover_receiver_ok(prog, y):
                             return EQ[t[1]]
             return None
         found = []
         ok, off = guarded(wf, Guard("same-receiver", boolean=recv_guard), prog, env.depth, found)
+        if not ok:
+            # iterator spelling: ids.into_iter().map(|id| { let p = load(id)?; if p.receiver != r { return Err } Ok(p) }).collect::<Result<_,_>>()?
+            # — the test guards every Ok of the closure that loads the packet, and the collected Result is `?`-propagated
+            for c_, p_ in inline_walk(prog, wf, 1):
+                if c_.body.kind != "closure" or not p_:
+                    continue
+                if not any(o_["op"] == "load" and ns_of(prog, o_["args"][0]) == "inflight" for o_ in __import__("engine.analysis", fromlist=["storage_ops"]).storage_ops(c_)):
+                    continue
+                f2 = []
+                ok2, off2 = guarded(c_, Guard("same-receiver", boolean=recv_guard), prog, 1, f2)
+                drv = [a_ for bi_, t_, a_ in call_sites(wf, lambda nm: nm.endswith("Iterator::map")) if len(a_) == 2 and a_[1][0] == "closure" and a_[1][1] == c_.body.key]
+                coll = [1 for bi_, atom_ in wf.atoms() if any(s_[0] == "call" and s_[1].endswith("Iterator::collect") and drv and norm(s_[2][0]) == norm(("call", "std::iter::Iterator::map", drv[0])) for s_ in subterms(atom_[1]))]
+                if ok2 and f2 and drv and coll:
+                    ok, off, found = True, None, f2
         R.ob("C07.R6", "recover:forced:receiver-mismatch-is-an-error", ok, "forced recovery can succeed with a selected packet of another receiver: %s" % (off,), fn=hk, found=found)
         loads = [o for o in storage_ops_deep(prog, wf, env.depth) if o["op"] == "load" and ns_of(prog, o["args"][0]) == "inflight"]
         good = len(loads) >= 1 and all(o["args"][2][0] == "payload" and any(shared.selected_packets_pred(s_) for s_ in subterms(o["args"][2])) for o in loads)
@@ -340,7 +351,27 @@ def run(R, env):
                     if first and rest and norm(da[0][2][0]) == norm(db[0][2][0]):
                         return EQ[t[1]], da[0][2][0]
             return None
-        cmps = [(bi, atom, denom_cmp(atom[1])) for bi, atom in h.atoms() if atom[0] == "bool" and denom_cmp(atom[1]) is not None]
+        def denom_quant(t):
+            # packets.iter().any(|p| p.amount.denom != first.amount.denom) / .all(|p| .. == ..), first = packets[0] / packets.first()
+            if not (t[0] == "call" and t[1].split("::")[-1] in ("any", "all") and "Iterator" in t[1] and len(t[2]) == 2 and t[2][1][0] == "closure"):
+                return None
+            coll = t[2][0]
+            res = closure_result(prog, t[2][1], params={2: ("elem",)})
+            if res is None or res[0] != "call" or res[1] not in EQ:
+                return None
+            a_, b_ = res[2]
+            for u, v in ((a_, b_), (b_, a_)):
+                if norm(u) == norm(("field", ("field", ("elem",), "amount"), "denom")) and v[0] == "field" and v[2] == "denom" and v[1][0] == "field" and v[1][2] == "amount":
+                    first = v[1][1]
+                    is_first = (first[0] == "payload" and shared.unwrap_payload(first)[0] == "call" and shared.unwrap_payload(first)[1].endswith("slice::first") and norm(shared.unwrap_payload(first)[2][0]) == norm(coll)) or (first[0] == "call" and first[1] == "std::ops::Index::index" and norm(first[2][0]) == norm(coll) and const_int(first[2][1]) == 0)
+                    if is_first:
+                        is_any = t[1].split("::")[-1] == "any"
+                        if is_any and not EQ[res[1]]:
+                            return False, coll   # any(!=) true => mismatch: passing value is False
+                        if (not is_any) and EQ[res[1]]:
+                            return True, coll    # all(==) true => all equal
+            return None
+        cmps = [(bi, atom, denom_cmp(atom[1]) or denom_quant(atom[1])) for bi, atom in h.atoms() if atom[0] == "bool" and (denom_cmp(atom[1]) is not None or denom_quant(atom[1]) is not None)]
         R.ob("C07.R7", "recover:denom-comparison", len(cmps) == 1, "found %d comparisons of packets[1..].amount.denom with packets[0].amount.denom" % len(cmps), fn=hk)
         for bi, atom, (pol, pk_term) in cmps:
             rej = atom[2][not pol]
@@ -355,7 +386,7 @@ def run(R, env):
             sums_same = bool(trs) and all(any(norm(s_) == norm(pk_term) for s_ in subterms(t["amount"])) for t in trs if t["amount"] is not None)
             R.ob("C07.R7", "recover:checked-collection-is-the-summed-one", sums_same, "the denom check runs over a different collection than the summation", loc=h.body.loc(bi), fn=hk)
             # the check precedes the summation: the comparison block is not reachable from the add_assign block
-            adds = [abi for abi, t_, a_ in call_sites(h, lambda nm: nm.endswith("AddAssign::add_assign"))]
+            adds = [abi for abi, t_, a_ in call_sites(h, lambda nm: nm.endswith("AddAssign::add_assign") or nm.endswith("Iterator::fold") or nm.endswith("Iterator::sum"))]
             R.ob("C07.R7", "recover:check-precedes-summation", bool(adds) and all(not h.body.reaches(ab, [bi], h.removed) for ab in adds), "the summation can run before the denom check", loc=h.body.loc(bi), fn=hk)
         C02.recover_only(R, env, prog, sites, "C07.R8")
         R.clear_undecided(["C07.R5", "C07.R6", "C07.R7", "C07.R8"])
